@@ -492,7 +492,7 @@ func (w *walker) call(c *ast.CallExpr) {
 				case "Lock", "RLock":
 					for _, h := range w.held {
 						k := h.class + "->" + class
-						if _, dup := w.la.edges[k]; !dup {
+						if old, dup := w.la.edges[k]; !dup || w.la.where(w.p, c)+" ("+w.fnName+")" < old.where {
 							w.la.edges[k] = edgeFact{h.class, class, w.la.where(w.p, c) + " (" + w.fnName + ")"}
 						}
 					}
@@ -1136,7 +1136,8 @@ func (la *lockAnalysis) run() {
 				for c := range g.all {
 					for _, h := range cs.held {
 						k := h.class + "->" + c
-						if _, dup := la.edges[k]; !dup {
+						// keep the lexicographically smallest witness: the fact file must not depend on map iteration order
+						if old, dup := la.edges[k]; !dup || cs.where+" calls "+cal < old.where {
 							la.edges[k] = edgeFact{h.class, c, cs.where + " calls " + cal}
 						}
 					}
